@@ -4,7 +4,7 @@
 // /repo with `go test -overlay`; never part of the repository. The obligations say the served header
 // is the first raw item of the block as the decoder split it. The harness concretises the input class
 // they quantify over - every encoding form of the block's outer list header (minimal, 1-, 2-, 4-, 8-byte
-// length, indefinite) - and judges the real constructor by the property statement: the served header
+// length, indefinite) and every item count / header era a block can have - and judges the real constructor by the property statement: the served header
 // bytes must be the block's first item, and the node-to-client message must keep type and bytes.
 package chainsync_test
 
@@ -28,6 +28,25 @@ func TestVerifReplay(t *testing.T) {
 		"indefinite-length list": {0x9f},
 	}
 	violated := false
+	// every item count a block of some era has (Dijkstra: 2, Byron: 3, Shelley..Mary: 4,
+	// Alonzo..Conway: 5) with every non-Byron header era, minimal outer header
+	items := [][]byte{{0x80}, {0xa0}, {0xf6}, {0x05}, {0x41, 0x07}}
+	for n := 1; n <= 6; n++ {
+		for era := uint(1); era <= 7; era++ {
+			block := append([]byte{0x80 + byte(n)}, first...)
+			for i := 1; i < n; i++ {
+				block = append(block, items[(i-1)%len(items)]...)
+			}
+			w, err := chainsync.NewWrappedHeader(era, 0, block)
+			if err != nil {
+				continue
+			}
+			if !bytes.Equal(w.HeaderCbor(), first) {
+				t.Errorf("VERIF-REPLAY: violated: %d-item block, header era %d: served header %x is not the block's first item %x", n, era, w.HeaderCbor(), first)
+				violated = true
+			}
+		}
+	}
 	for name, hdr := range forms {
 		block := append(append(append([]byte{}, hdr...), first...), rest...)
 		if hdr[0] == 0x9f {
